@@ -312,7 +312,8 @@ impl Runtime {
                     return Event::Errors(Arc::clone(&self.listing.direct_errors));
                 }
             }
-            State::Inkey | State::RuntimeError(_) => {}
+            State::Inkey => return Event::Inkey,
+            State::RuntimeError(_) => {}
         }
         if let State::RuntimeError(_) = self.state {
             if self.print_col > 0 {
